@@ -1,4 +1,4 @@
-import GqlProofs.Validate.OverlapFuel
+import GqlProofs.Validate.OverlapCost
 import GqlProofs.Validate.OverlapArgs
 /-
   OverlappingFieldsCanBeMerged: soundness of the reported conflicts (C08, partial).
@@ -117,16 +117,16 @@ theorem fmOfList_allK (Q : Name → FInfo → Prop) (fs : List FInfo) (h : ∀ f
       (fmPush_allK Q _ f0 (hfs f0 (List.mem_cons_self ..)) m hm)
 
 theorem goodMapK_collect {U : Univ} (s : SV) (l : Links) (parent : Option Definition) (sels : Selections)
-    (h : ∀ x ∈ allFields sels, x ∈ U) : GoodMapK U (getFieldsAndFragmentNames s l parent sels).1 := by
+    (h : ∀ x ∈ allFields sels, x ∈ U) : GoodMapK U (getFieldsAndFragmentNames s l parent sels).1.map := by
   unfold getFieldsAndFragmentNames
   exact fmOfList_allK (GoodK U) _ fun f hf => ⟨h _ (collectFields_mem s l sels parent f hf), rfl⟩
 
 theorem goodMapK_sub {U : Univ} (hcl : UClosed U) (s : SV) (l : Links) (parent : Option Definition) {a : FInfo}
-    (ha : Good U a) : GoodMapK U (getFieldsAndFragmentNames s l parent a.node.sel).1 :=
+    (ha : Good U a) : GoodMapK U (getFieldsAndFragmentNames s l parent a.node.sel).1.map :=
   goodMapK_collect s l parent a.node.sel (hcl _ _ ha)
 
 theorem goodMapK_frag {U : Univ} (env : Env) (hfr : UFrags env.d U) {f : FragmentDef} (hf : f ∈ env.d.frags) :
-    GoodMapK U (env.fragFields f).1 := by
+    GoodMapK U (env.fragFields f).1.map := by
   unfold Env.fragFields
   exact goodMapK_collect _ _ _ f.sel (hfr f hf)
 
@@ -138,221 +138,195 @@ theorem goodMapK_get {U : Univ} {B : FMap} (hB : GoodMapK U B) {rn : Name} {fs :
 
 /-- whatever `findConflict` reports for two good fields of one response name is sound -/
 def FCSound (s : SV) (U : Univ) (fc : FC) : Prop :=
-  ∀ excl a b C P r, Good U a → Good U b → responseName a.node = responseName b.node →
-    fc excl a b C P = some r → AllSound s U excl (optToList r.2)
+  ∀ excl a b st r, Good U a → Good U b → responseName a.node = responseName b.node →
+    fc excl a b st = some r → AllSound s U excl (optToList r.2)
 
-theorem pairRow_sound {s : SV} {U : Univ} {fc : FC} (hfc : FCSound s U fc) (excl : Bool) (C : Comparing) {k : Name}
-    {fa : FInfo} (ha : GoodK U k fa) : ∀ (fbs : List FInfo), (∀ f ∈ fbs, GoodK U k f) → ∀ P r,
-      pairRow fc excl C fa fbs P = some r → AllSound s U excl r.2
-  | [], _, P, r, h => by
+theorem pairRow_sound {s : SV} {U : Univ} {fc : FC} (hfc : FCSound s U fc) (excl : Bool) {k : Name}
+    {fa : FInfo} (ha : GoodK U k fa) : ∀ (fbs : List FInfo), (∀ f ∈ fbs, GoodK U k f) → ∀ st r,
+      pairRow fc excl fa fbs st = some r → AllSound s U excl r.2
+  | [], _, st, r, h => by
     simp only [pairRow] at h
     injection h with h
     subst h
     exact allSound_nil
-  | fb :: rest, hb, P, r, h => by
+  | fb :: rest, hb, st, r, h => by
     simp only [pairRow] at h
-    cases h1 : fc excl fa fb C P with
+    cases h1 : fc excl fa fb st with
     | none => rw [h1] at h; cases h
     | some r1 =>
-      obtain ⟨P1, c⟩ := r1
+      obtain ⟨st1, c⟩ := r1
       rw [h1] at h
       simp only at h
-      cases h2 : pairRow fc excl C fa rest P1 with
+      cases h2 : pairRow fc excl fa rest st1 with
       | none => rw [h2] at h; cases h
       | some r2 =>
-        obtain ⟨P2, cs⟩ := r2
+        obtain ⟨st2, cs⟩ := r2
         rw [h2] at h
         simp only at h
         injection h with h
         subst h
         have hb0 := hb fb (List.mem_cons_self ..)
-        exact allSound_append (hfc excl fa fb C P _ ha.1 hb0.1 (ha.2.trans hb0.2.symm) h1)
-          (pairRow_sound hfc excl C ha rest (fun f hf => hb f (List.mem_cons_of_mem _ hf)) P1 _ h2)
+        exact allSound_append (hfc excl fa fb st _ ha.1 hb0.1 (ha.2.trans hb0.2.symm) h1)
+          (pairRow_sound hfc excl ha rest (fun f hf => hb f (List.mem_cons_of_mem _ hf)) st1 _ h2)
 
-theorem pairGrid_sound {s : SV} {U : Univ} {fc : FC} (hfc : FCSound s U fc) (excl : Bool) (C : Comparing) {k : Name}
-    {fsB : List FInfo} (hB : ∀ f ∈ fsB, GoodK U k f) : ∀ (fsA : List FInfo), (∀ f ∈ fsA, GoodK U k f) → ∀ P r,
-      pairGrid fc excl C fsB fsA P = some r → AllSound s U excl r.2
-  | [], _, P, r, h => by
+theorem pairGrid_sound {s : SV} {U : Univ} {fc : FC} (hfc : FCSound s U fc) (excl : Bool) {k : Name}
+    {fsB : List FInfo} (hB : ∀ f ∈ fsB, GoodK U k f) : ∀ (fsA : List FInfo), (∀ f ∈ fsA, GoodK U k f) → ∀ st r,
+      pairGrid fc excl fsB fsA st = some r → AllSound s U excl r.2
+  | [], _, st, r, h => by
     simp only [pairGrid] at h
     injection h with h
     subst h
     exact allSound_nil
-  | fa :: rest, hA, P, r, h => by
+  | fa :: rest, hA, st, r, h => by
     simp only [pairGrid] at h
-    cases h1 : pairRow fc excl C fa fsB P with
+    cases h1 : pairRow fc excl fa fsB st with
     | none => rw [h1] at h; cases h
     | some r1 =>
-      obtain ⟨P1, c1⟩ := r1
+      obtain ⟨st1, c1⟩ := r1
       rw [h1] at h
       simp only at h
-      cases h2 : pairGrid fc excl C fsB rest P1 with
+      cases h2 : pairGrid fc excl fsB rest st1 with
       | none => rw [h2] at h; cases h
       | some r2 =>
-        obtain ⟨P2, c2⟩ := r2
+        obtain ⟨st2, c2⟩ := r2
         rw [h2] at h
         simp only at h
         injection h with h
         subst h
-        exact allSound_append (pairRow_sound hfc excl C (hA fa (List.mem_cons_self ..)) fsB hB P _ h1)
-          (pairGrid_sound hfc excl C hB rest (fun f hf => hA f (List.mem_cons_of_mem _ hf)) P1 _ h2)
+        exact allSound_append (pairRow_sound hfc excl (hA fa (List.mem_cons_self ..)) fsB hB st _ h1)
+          (pairGrid_sound hfc excl hB rest (fun f hf => hA f (List.mem_cons_of_mem _ hf)) st1 _ h2)
 
-theorem between_sound {s : SV} {U : Univ} {fc : FC} (hfc : FCSound s U fc) (excl : Bool) (C : Comparing) {B : FMap}
-    (hB : GoodMapK U B) : ∀ (A : FMap), GoodMapK U A → ∀ P r,
-      collectConflictsBetween fc excl C B A P = some r → AllSound s U excl r.2
-  | [], _, P, r, h => by
+theorem between_sound {s : SV} {U : Univ} {fc : FC} (hfc : FCSound s U fc) (excl : Bool) {B : FMap}
+    (hB : GoodMapK U B) : ∀ (A : FMap), GoodMapK U A → ∀ st r,
+      collectConflictsBetween fc excl B A st = some r → AllSound s U excl r.2
+  | [], _, st, r, h => by
     simp only [collectConflictsBetween] at h
     injection h with h
     subst h
     exact allSound_nil
-  | (rn, fsA) :: rest, hA, P, r, h => by
+  | (rn, fsA) :: rest, hA, st, r, h => by
     have hrest : GoodMapK U rest := fun e he => hA e (List.mem_cons_of_mem _ he)
     unfold collectConflictsBetween at h
     cases hg : fmGet B rn with
     | none =>
       rw [hg] at h
-      exact between_sound hfc excl C hB rest hrest P r h
+      exact between_sound hfc excl hB rest hrest st r h
     | some fsB =>
       rw [hg] at h
       simp only at h
-      cases h1 : pairGrid fc excl C fsB fsA P with
+      cases h1 : pairGrid fc excl fsB fsA st with
       | none => rw [h1] at h; cases h
       | some r1 =>
-        obtain ⟨P1, c1⟩ := r1
+        obtain ⟨st1, c1⟩ := r1
         rw [h1] at h
         simp only at h
-        cases h2 : collectConflictsBetween fc excl C B rest P1 with
+        cases h2 : collectConflictsBetween fc excl B rest st1 with
         | none => rw [h2] at h; cases h
         | some r2 =>
-          obtain ⟨P2, c2⟩ := r2
+          obtain ⟨st2, c2⟩ := r2
           rw [h2] at h
           simp only at h
           injection h with h
           subst h
           exact allSound_append
-            (pairGrid_sound hfc excl C (goodMapK_get hB hg) fsA (hA (rn, fsA) (List.mem_cons_self ..)) P _ h1)
-            (between_sound hfc excl C hB rest hrest P1 _ h2)
+            (pairGrid_sound hfc excl (goodMapK_get hB hg) fsA (hA (rn, fsA) (List.mem_cons_self ..)) st _ h1)
+            (between_sound hfc excl hB rest hrest st1 _ h2)
 
-theorem pairTriangle_sound {s : SV} {U : Univ} {fc : FC} (hfc : FCSound s U fc) (C : Comparing) {k : Name} :
-    ∀ (fs : List FInfo), (∀ f ∈ fs, GoodK U k f) → ∀ P r, pairTriangle fc C fs P = some r → AllSound s U false r.2
-  | [], _, P, r, h => by
+theorem pairTriangle_sound {s : SV} {U : Univ} {fc : FC} (hfc : FCSound s U fc) {k : Name} :
+    ∀ (fs : List FInfo), (∀ f ∈ fs, GoodK U k f) → ∀ st r, pairTriangle fc fs st = some r → AllSound s U false r.2
+  | [], _, st, r, h => by
     simp only [pairTriangle] at h
     injection h with h
     subst h
     exact allSound_nil
-  | fa :: rest, hA, P, r, h => by
+  | fa :: rest, hA, st, r, h => by
     have hrest : ∀ f ∈ rest, GoodK U k f := fun f hf => hA f (List.mem_cons_of_mem _ hf)
     simp only [pairTriangle] at h
-    cases h1 : pairRow fc false C fa rest P with
+    cases h1 : pairRow fc false fa rest st with
     | none => rw [h1] at h; cases h
     | some r1 =>
-      obtain ⟨P1, c1⟩ := r1
+      obtain ⟨st1, c1⟩ := r1
       rw [h1] at h
       simp only at h
-      cases h2 : pairTriangle fc C rest P1 with
+      cases h2 : pairTriangle fc rest st1 with
       | none => rw [h2] at h; cases h
       | some r2 =>
-        obtain ⟨P2, c2⟩ := r2
+        obtain ⟨st2, c2⟩ := r2
         rw [h2] at h
         simp only at h
         injection h with h
         subst h
-        exact allSound_append (pairRow_sound hfc false C (hA fa (List.mem_cons_self ..)) rest hrest P _ h1)
-          (pairTriangle_sound hfc C rest hrest P1 _ h2)
+        exact allSound_append (pairRow_sound hfc false (hA fa (List.mem_cons_self ..)) rest hrest st _ h1)
+          (pairTriangle_sound hfc rest hrest st1 _ h2)
 
-theorem within_sound {s : SV} {U : Univ} {fc : FC} (hfc : FCSound s U fc) (C : Comparing) :
-    ∀ (A : FMap), GoodMapK U A → ∀ P r, collectConflictsWithin fc C A P = some r → AllSound s U false r.2
-  | [], _, P, r, h => by
+theorem within_sound {s : SV} {U : Univ} {fc : FC} (hfc : FCSound s U fc) :
+    ∀ (A : FMap), GoodMapK U A → ∀ st r, collectConflictsWithin fc A st = some r → AllSound s U false r.2
+  | [], _, st, r, h => by
     simp only [collectConflictsWithin] at h
     injection h with h
     subst h
     exact allSound_nil
-  | (rn, fs) :: rest, hA, P, r, h => by
+  | (rn, fs) :: rest, hA, st, r, h => by
     have hrest : GoodMapK U rest := fun e he => hA e (List.mem_cons_of_mem _ he)
     simp only [collectConflictsWithin] at h
-    cases h1 : pairTriangle fc C fs P with
+    cases h1 : pairTriangle fc fs st with
     | none => rw [h1] at h; cases h
     | some r1 =>
-      obtain ⟨P1, c1⟩ := r1
+      obtain ⟨st1, c1⟩ := r1
       rw [h1] at h
       simp only at h
-      cases h2 : collectConflictsWithin fc C rest P1 with
+      cases h2 : collectConflictsWithin fc rest st1 with
       | none => rw [h2] at h; cases h
       | some r2 =>
-        obtain ⟨P2, c2⟩ := r2
+        obtain ⟨st2, c2⟩ := r2
         rw [h2] at h
         simp only at h
         injection h with h
         subst h
-        exact allSound_append (pairTriangle_sound hfc C fs (hA (rn, fs) (List.mem_cons_self ..)) P _ h1)
-          (within_sound hfc C rest hrest P1 _ h2)
+        exact allSound_append (pairTriangle_sound hfc fs (hA (rn, fs) (List.mem_cons_self ..)) st _ h1)
+          (within_sound hfc rest hrest st1 _ h2)
 
-/- ---------- generic loops ---------- -/
+/- ---------- generic loop ---------- -/
 
-theorem pairsLoop_sound {s : SV} {U : Univ} {pe : Bool} {α : Type} (step : α → Pairs → Option (Pairs × List Conflict)) :
-    ∀ (xs : List α), (∀ x ∈ xs, ∀ P r, step x P = some r → AllSound s U pe r.2) → ∀ P r,
-      pairsLoop step xs P = some r → AllSound s U pe r.2
-  | [], _, P, r, h => by
-    simp only [pairsLoop] at h
+theorem stLoop_sound {s : SV} {U : Univ} {pe : Bool} {α : Type} (step : α → OSt → Option (OSt × List Conflict)) :
+    ∀ (xs : List α), (∀ x ∈ xs, ∀ st r, step x st = some r → AllSound s U pe r.2) → ∀ st r,
+      stLoop step xs st = some r → AllSound s U pe r.2
+  | [], _, st, r, h => by
+    simp only [stLoop] at h
     injection h with h
     subst h
     exact allSound_nil
-  | x :: rest, hs, P, r, h => by
-    simp only [pairsLoop] at h
-    cases h1 : step x P with
+  | x :: rest, hs, st, r, h => by
+    simp only [stLoop] at h
+    cases h1 : step x st with
     | none => rw [h1] at h; cases h
     | some r1 =>
-      obtain ⟨P1, c1⟩ := r1
+      obtain ⟨st1, c1⟩ := r1
       rw [h1] at h
       simp only at h
-      cases h2 : pairsLoop step rest P1 with
+      cases h2 : stLoop step rest st1 with
       | none => rw [h2] at h; cases h
       | some r2 =>
-        obtain ⟨P2, c2⟩ := r2
+        obtain ⟨st2, c2⟩ := r2
         rw [h2] at h
         simp only at h
         injection h with h
         subst h
-        exact allSound_append (hs x (List.mem_cons_self ..) P _ h1)
-          (pairsLoop_sound step rest (fun y hy => hs y (List.mem_cons_of_mem _ hy)) P1 _ h2)
-
-theorem chainLoop_sound {s : SV} {U : Univ} {pe : Bool} (step : SpreadNode → List Name → Pairs → Option ChainSt)
-    (hs : ∀ sp M P r, step sp M P = some r → AllSound s U pe r.2.2) :
-    ∀ (sps : List SpreadNode) M P r, chainLoop step sps M P = some r → AllSound s U pe r.2.2
-  | [], M, P, r, h => by
-    simp only [chainLoop] at h
-    injection h with h
-    subst h
-    exact allSound_nil
-  | sp :: rest, M, P, r, h => by
-    simp only [chainLoop] at h
-    cases h1 : step sp M P with
-    | none => rw [h1] at h; cases h
-    | some r1 =>
-      obtain ⟨M1, P1, c1⟩ := r1
-      rw [h1] at h
-      simp only at h
-      cases h2 : chainLoop step rest M1 P1 with
-      | none => rw [h2] at h; cases h
-      | some r2 =>
-        obtain ⟨M2, P2, c2⟩ := r2
-        rw [h2] at h
-        simp only at h
-        injection h with h
-        subst h
-        exact allSound_append (hs sp M P _ h1) (chainLoop_sound step hs rest M1 P1 _ h2)
+        exact allSound_append (hs x (List.mem_cons_self ..) st _ h1)
+          (stLoop_sound step rest (fun y hy => hs y (List.mem_cons_of_mem _ hy)) st1 _ h2)
 
 /- ---------- chain and check ---------- -/
 
 theorem chain_sound {s : SV} {U : Univ} (env : Env) {fc : FC} (hfc : FCSound s U fc) (hfr : UFrags env.d U)
-    (excl : Bool) (C : Comparing) {A : FMap} (hA : GoodMapK U A) :
-    ∀ n sp M P r, chain env fc excl C A n sp M P = some r → AllSound s U excl r.2.2
-  | 0, _, _, _, _, h => by simp [chain] at h
-  | n + 1, sp, M, P, r, h => by
+    (excl : Bool) {A : FM} (hA : GoodMapK U A.map) :
+    ∀ n sp st r, chain env fc excl A n sp st = some r → AllSound s U excl r.2
+  | 0, _, _, _, h => by simp [chain] at h
+  | n + 1, sp, st, r, h => by
     unfold chain at h
+    simp only at h
     split at h
     · injection h with h; subst h; exact allSound_nil
-    · simp only at h
-      cases hs : env.l.spreadDef env.d sp.name sp.pos with
+    · cases hs : env.l.spreadDef env.d sp.name sp.pos with
       | none => rw [hs] at h; injection h with h; subst h; exact allSound_nil
       | some f =>
         rw [hs] at h
@@ -360,85 +334,54 @@ theorem chain_sound {s : SV} {U : Univ} (env : Env) {fc : FC} (hfc : FCSound s U
         split at h
         · injection h with h; subst h; exact allSound_nil
         · have hmem := fragForName_mem (spreadDef_some hs)
-          cases h1 : collectConflictsBetween fc excl C (env.fragFields f).1 A P with
-          | none => rw [h1] at h; cases h
-          | some r1 =>
-            obtain ⟨P1, c1⟩ := r1
-            rw [h1] at h
-            simp only at h
-            cases h2 : chainLoop (chain env fc excl C A n) ((env.fragFields f).2.filter fun x => x.name != sp.name)
-                (sp.name :: M) P1 with
-            | none => rw [h2] at h; cases h
-            | some r2 =>
-              obtain ⟨M2, P2, c2⟩ := r2
-              rw [h2] at h
-              simp only at h
+          split at h
+          · cases h
+          · rename_i st2 c1 h1
+            split at h
+            · cases h
+            · rename_i st3 c2 h2
               injection h with h
               subst h
-              exact allSound_append (between_sound hfc excl C (goodMapK_frag env hfr hmem) A hA P _ h1)
-                (chainLoop_sound _ (fun sp' M' P' r' h' => chain_sound env hfc hfr excl C hA n sp' M' P' r' h') _ _ _ _ h2)
+              exact allSound_append (between_sound hfc excl (goodMapK_frag env hfr hmem) A.map hA _ _ h1)
+                (stLoop_sound _ _ (fun sp' _ st' r' h' => chain_sound env hfc hfr excl hA n sp' st' r' h') _ _ h2)
 
 theorem check_sound {s : SV} {U : Univ} (env : Env) {fc : FC} (hfc : FCSound s U fc) (hfr : UFrags env.d U)
-    (excl : Bool) (C : Comparing) : ∀ n a b P r, check env fc excl C n a b P = some r → AllSound s U excl r.2
+    (excl : Bool) : ∀ n a b st r, check env fc excl n a b st = some r → AllSound s U excl r.2
   | 0, _, _, _, _, h => by simp [check] at h
-  | n + 1, a, b, P, r, h => by
+  | n + 1, a, b, st, r, h => by
     unfold check at h
+    simp only at h
     split at h
     · injection h with h; subst h; exact allSound_nil
     · split at h
       · injection h with h; subst h; exact allSound_nil
-      · simp only at h
-        split at h
+      · split at h
         · rename_i fa fb hsa hsb
           have hma := fragForName_mem (spreadDef_some hsa)
           have hmb := fragForName_mem (spreadDef_some hsb)
-          cases h1 : collectConflictsBetween fc excl C (env.fragFields fb).1 (env.fragFields fa).1
-              (P.add a.name b.name excl) with
-          | none => rw [h1] at h; cases h
-          | some r1 =>
-            obtain ⟨P1, c1⟩ := r1
-            rw [h1] at h
-            simp only at h
-            cases h2 : pairsLoop (fun x => check env fc excl C n a x) (env.fragFields fb).2 P1 with
-            | none => rw [h2] at h; cases h
-            | some r2 =>
-              obtain ⟨P2, c2⟩ := r2
-              rw [h2] at h
-              simp only at h
-              cases h3 : pairsLoop (fun x => check env fc excl C n x b) (env.fragFields fa).2 P2 with
-              | none => rw [h3] at h; cases h
-              | some r3 =>
-                obtain ⟨P3, c3⟩ := r3
-                rw [h3] at h
-                simp only at h
+          split at h
+          · cases h
+          · rename_i st2 c1 h1
+            split at h
+            · cases h
+            · rename_i st3 c2 h2
+              split at h
+              · cases h
+              · rename_i st4 c3 h3
                 injection h with h
                 subst h
                 exact allSound_append
                   (allSound_append
-                    (between_sound hfc excl C (goodMapK_frag env hfr hmb) _ (goodMapK_frag env hfr hma) _ _ h1)
-                    (pairsLoop_sound _ _ (fun x _ Q r' h' => check_sound env hfc hfr excl C n a x Q r' h') _ _ h2))
-                  (pairsLoop_sound _ _ (fun x _ Q r' h' => check_sound env hfc hfr excl C n x b Q r' h') _ _ h3)
+                    (between_sound hfc excl (goodMapK_frag env hfr hmb) _ (goodMapK_frag env hfr hma) _ _ h1)
+                    (stLoop_sound _ _ (fun x _ Q r' h' => check_sound env hfc hfr excl n a x Q r' h') _ _ h2))
+                  (stLoop_sound _ _ (fun x _ Q r' h' => check_sound env hfc hfr excl n x b Q r' h') _ _ h3)
         · injection h with h; subst h; exact allSound_nil
 
 /- ---------- one `findConflict` level ---------- -/
 
-theorem chainFresh_sound {s : SV} {U : Univ} (env : Env) {fc : FC} (hfc : FCSound s U fc) (hfr : UFrags env.d U)
-    (excl : Bool) (C : Comparing) {A : FMap} (hA : GoodMapK U A) (sp : SpreadNode) (P : Pairs)
-    (r : Pairs × List Conflict) (h : chainFresh env fc excl C A sp P = some r) : AllSound s U excl r.2 := by
-  unfold chainFresh at h
-  cases h1 : chain env fc excl C A env.chainFuel sp [] P with
-  | none => rw [h1] at h; cases h
-  | some r1 =>
-    obtain ⟨M1, P1, c1⟩ := r1
-    rw [h1] at h
-    simp only at h
-    injection h with h
-    subst h
-    exact chain_sound env hfc hfr excl C hA _ _ _ _ _ h1
-
 theorem subSets_sound {s : SV} {U : Univ} (env : Env) {fc : FC} (hfc : FCSound s U fc) (hcl : UClosed U)
-    (hfr : UFrags env.d U) (excl : Bool) {a b : FInfo} (ha : Good U a) (hb : Good U b) (C : Comparing) (P : Pairs)
-    (r : Pairs × List Conflict) (h : findConflictsBetweenSubSelectionSets env fc excl a b C P = some r) :
+    (hfr : UFrags env.d U) (excl : Bool) {a b : FInfo} (ha : Good U a) (hb : Good U b) (st : OSt)
+    (r : OSt × List Conflict) (h : findConflictsBetweenSubSelectionSets env fc excl a b st = some r) :
     AllSound s U excl r.2 := by
   unfold findConflictsBetweenSubSelectionSets at h
   simp only at h
@@ -446,34 +389,34 @@ theorem subSets_sound {s : SV} {U : Univ} (env : Env) {fc : FC} (hfc : FCSound s
   have gB := goodMapK_sub hcl env.s env.l (b.next env.s) hb
   split at h
   · cases h
-  · rename_i P1 c1 h1
+  · rename_i st1 c1 h1
     split at h
     · cases h
-    · rename_i P2 c2 h2
+    · rename_i st2 c2 h2
       split at h
       · cases h
-      · rename_i P3 c3 h3
+      · rename_i st3 c3 h3
         split at h
         · cases h
-        · rename_i P4 c4 h4
+        · rename_i st4 c4 h4
           injection h with h
           subst h
           exact allSound_append
             (allSound_append
-              (allSound_append (between_sound hfc excl C gB _ gA P _ h1)
-                (pairsLoop_sound _ _ (fun sp _ Q r' h' => chainFresh_sound env hfc hfr excl C gA sp Q r' h') _ _ h2))
-              (pairsLoop_sound _ _ (fun sp _ Q r' h' => chainFresh_sound env hfc hfr excl C gB sp Q r' h') _ _ h3))
-            (pairsLoop_sound _ _ (fun sa _ Q r' h' =>
-              pairsLoop_sound _ _ (fun sb _ Q' r'' h'' => check_sound env hfc hfr excl C _ sa sb Q' r'' h'') Q r' h') _ _ h4)
+              (allSound_append (between_sound hfc excl gB _ gA st _ h1)
+                (stLoop_sound _ _ (fun sp _ Q r' h' => chain_sound env hfc hfr excl gA _ sp Q r' h') _ _ h2))
+              (stLoop_sound _ _ (fun sp _ Q r' h' => chain_sound env hfc hfr excl gB _ sp Q r' h') _ _ h3))
+            (stLoop_sound _ _ (fun sa _ Q r' h' =>
+              stLoop_sound _ _ (fun sb _ Q' r'' h'' => check_sound env hfc hfr excl _ sa sb Q' r'' h'') Q r' h') _ _ h4)
 
 /-- `findConflict` reports only sound conflicts if the conflicts it gets from
     `findConflictsBetweenSubSelectionSets` are sound in the context it calls it with -/
 theorem findConflictBody_sound (s : SV) (U : Univ)
-    (sub : Bool → FInfo → FInfo → Comparing → Pairs → Option (Pairs × List Conflict))
-    (excl0 : Bool) (a b : FInfo) (C : Comparing) (P : Pairs) (ha : Good U a) (hb : Good U b)
+    (sub : Bool → FInfo → FInfo → OSt → Option (OSt × List Conflict))
+    (excl0 : Bool) (a b : FInfo) (st : OSt) (ha : Good U a) (hb : Good U b)
     (hrn : responseName a.node = responseName b.node)
-    (hsub : ∀ excl C' r, sub excl a b C' P = some r → AllSound s U excl r.2)
-    (r : Pairs × Option Conflict) (h : findConflictBody s sub excl0 a b C P = some r) :
+    (hsub : ∀ excl st' r, sub excl a b st' = some r → AllSound s U excl r.2)
+    (r : OSt × Option Conflict) (h : findConflictBody s sub excl0 a b st = some r) :
     AllSound s U excl0 (optToList r.2) := by
   unfold findConflictBody at h
   simp only at h
@@ -529,21 +472,17 @@ theorem findConflictBody_sound (s : SV) (U : Univ)
             · cases htc
           · cases htc
         · split at h
+          · cases h
           · injection h with h
             subst h
             exact allSound_nil
-          · split at h
-            · cases h
-            · injection h with h
-              subst h
-              exact allSound_nil
-            · rename_i P1 c cs hs
-              injection h with h
-              subst h
-              intro x hx
-              simp only [optToList, List.mem_singleton] at hx
-              subst hx
-              exact .subfields ha hb hrn (hsub _ _ _ hs)
+          · rename_i st1 c cs hs
+            injection h with h
+            subst h
+            intro x hx
+            simp only [optToList, List.mem_singleton] at hx
+            subst hx
+            exact .subfields ha hb hrn (hsub _ _ _ hs)
   · injection h with h
     subst h
     exact allSound_nil
@@ -551,55 +490,46 @@ theorem findConflictBody_sound (s : SV) (U : Univ)
 theorem fcLevel_sound {s : SV} {U : Univ} (env : Env) (hs : env.s = s) (hcl : UClosed U) (hfr : UFrags env.d U) :
     ∀ n, FCSound s U (fcLevel env n)
   | 0 => by
-    intro _ _ _ _ _ _ _ _ _ h
+    intro _ _ _ _ _ _ _ _ h
     simp [fcLevel] at h
   | n + 1 => by
-    intro excl a b C P r ha hb hrn h
+    intro excl a b st r ha hb hrn h
     simp only [fcLevel] at h
     rw [hs] at h
-    exact findConflictBody_sound s U _ excl a b C P ha hb hrn
-      (fun excl' C' r' h' => subSets_sound env (fcLevel_sound env hs hcl hfr n) hcl hfr excl' ha hb C' P r' h') r h
+    exact findConflictBody_sound s U _ excl a b st ha hb hrn
+      (fun excl' st' r' h' => subSets_sound env (fcLevel_sound env hs hcl hfr n) hcl hfr excl' ha hb st' r' h') r h
 
 /- ---------- the top-level call ---------- -/
 
 theorem withinLoop_sound {s : SV} {U : Univ} (env : Env) {fc : FC} (hfc : FCSound s U fc) (hfr : UFrags env.d U)
-    {A : FMap} (hA : GoodMapK U A) : ∀ (sps : List SpreadNode) M P r,
-      withinLoop env fc A sps M P = some r → AllSound s U false r.2.2
-  | [], M, P, r, h => by
+    {A : FM} (hA : GoodMapK U A.map) : ∀ (sps : List SpreadNode) st r,
+      withinLoop env fc A sps st = some r → AllSound s U false r.2
+  | [], st, r, h => by
     simp only [withinLoop] at h
     injection h with h
     subst h
     exact allSound_nil
-  | sa :: rest, M, P, r, h => by
+  | sa :: rest, st, r, h => by
     simp only [withinLoop] at h
-    cases h1 : chain env fc false [] A env.chainFuel sa M P with
-    | none => rw [h1] at h; cases h
-    | some r1 =>
-      obtain ⟨M1, P1, c1⟩ := r1
-      rw [h1] at h
-      simp only at h
-      cases h2 : pairsLoop (collectConflictsBetweenFragments env fc false [] sa) rest P1 with
-      | none => rw [h2] at h; cases h
-      | some r2 =>
-        obtain ⟨P2, c2⟩ := r2
-        rw [h2] at h
-        simp only at h
-        cases h3 : withinLoop env fc A rest M1 P2 with
-        | none => rw [h3] at h; cases h
-        | some r3 =>
-          obtain ⟨M3, P3, c3⟩ := r3
-          rw [h3] at h
-          simp only at h
+    split at h
+    · cases h
+    · rename_i st1 c1 h1
+      split at h
+      · cases h
+      · rename_i st2 c2 h2
+        split at h
+        · cases h
+        · rename_i st3 c3 h3
           injection h with h
           subst h
           exact allSound_append
-            (allSound_append (chain_sound env hfc hfr false [] hA _ _ _ _ _ h1)
-              (pairsLoop_sound _ _ (fun sb _ Q r' h' => check_sound env hfc hfr false [] _ sa sb Q r' h') _ _ h2))
-            (withinLoop_sound env hfc hfr hA rest M1 P2 _ h3)
+            (allSound_append (chain_sound env hfc hfr false hA _ _ _ _ h1)
+              (stLoop_sound _ _ (fun sb _ Q r' h' => check_sound env hfc hfr false _ sa sb Q r' h') _ _ h2))
+            (withinLoop_sound env hfc hfr hA rest st2 _ h3)
 
 theorem findConflictsWithinSelectionSet_sound {s : SV} {U : Univ} (env : Env) {fc : FC} (hfc : FCSound s U fc)
     (hfr : UFrags env.d U) (parent : Option Definition) (sels : Selections) (hsels : ∀ x ∈ allFields sels, x ∈ U)
-    (P : Pairs) (r : Pairs × List Conflict) (h : findConflictsWithinSelectionSet env fc parent sels P = some r) :
+    (st : OSt) (r : OSt × List Conflict) (h : findConflictsWithinSelectionSet env fc parent sels st = some r) :
     AllSound s U false r.2 := by
   unfold findConflictsWithinSelectionSet at h
   split at h
@@ -610,23 +540,23 @@ theorem findConflictsWithinSelectionSet_sound {s : SV} {U : Univ} (env : Env) {f
     have gA := goodMapK_collect env.s env.l parent sels hsels
     split at h
     · cases h
-    · rename_i P1 c1 h1
+    · rename_i st1 c1 h1
       split at h
       · cases h
-      · rename_i M2 P2 c2 h2
+      · rename_i st2 c2 h2
         injection h with h
         subst h
-        exact allSound_append (within_sound hfc [] _ gA P _ h1) (withinLoop_sound env hfc hfr gA _ _ _ _ h2)
+        exact allSound_append (within_sound hfc _ gA _ _ h1) (withinLoop_sound env hfc hfr gA _ _ _ h2)
 
 /-- every conflict that one observer call reports is sound (context: parents not exclusive) -/
 theorem overlapRun_sound (s : SV) (d : QueryDoc) (l : Links) (parent : Option Definition) (sels : Selections)
-    (P : Pairs) (r : Pairs × List Conflict) (h : overlapRun s d l parent sels P = some r) :
+    (st : OSt) (r : OSt × List Conflict) (h : overlapRun s d l parent sels st = some r) :
     AllSound s (univOf d sels) false r.2 := by
   unfold overlapRun at h
   simp only at h
   exact findConflictsWithinSelectionSet_sound (overlapEnv s d l)
     (fcLevel_sound (overlapEnv s d l) rfl (univOf_closed d sels) (univOf_frags d sels) _)
     (univOf_frags d sels) parent sels
-    (fun x hx => by simp only [univOf, List.mem_append]; exact Or.inl hx) P r h
+    (fun x hx => by simp only [univOf, List.mem_append]; exact Or.inl hx) st r h
 
 end Gql.Validate
